@@ -34,6 +34,20 @@ pub enum Inj {
 pub struct Case {
     pub state: RState,
     pub injections: Vec<Inj>,
+    /// what the stale bytes of T's long-lived receive buffer look like behind each injected datagram (an outsider
+    /// controls them: they are the remains of an earlier, longer datagram): 0 = 00 a5 a5.., 1 = ff ff ff.. (the
+    /// handshake marker everywhere), 2 = all zero, 3 = 01 01 01..
+    #[serde(default)]
+    pub stale: u8,
+}
+
+pub fn stale_bytes(stale: u8) -> Vec<u8> {
+    match stale % 4 {
+        0 => std::iter::once(0u8).chain(std::iter::repeat(0xa5).take(700)).collect(),
+        1 => vec![0xff; 701],
+        2 => vec![0; 701],
+        _ => vec![1; 701],
+    }
 }
 
 fn src_addr(lab: &Lab, s: &Src) -> SocketAddr {
@@ -99,7 +113,7 @@ pub fn run_case(ctx: &Ctx, c: &Case) -> Vec<Viol> {
     let strict = c.state != RState::EstPlain;
     let has_ticks = c.injections.iter().any(|i| matches!(i, Inj::Tick));
     let mut had_verbatim = false;
-    let scrub: Vec<u8> = std::iter::once(0u8).chain(std::iter::repeat(0xa5).take(700)).collect();
+    let scrub: Vec<u8> = stale_bytes(c.stale);
     for (idx, inj) in c.injections.iter().enumerate() {
         if let Inj::Tick = inj {
             lab.sim.tick();
@@ -129,7 +143,7 @@ pub fn run_case(ctx: &Ctx, c: &Case) -> Vec<Viol> {
         lab.sim.deliver_to(T, stranger, scrub.clone());
         let before = lab.observe();
         lab.sim.deliver_to(T, src, bytes.clone());
-        let one = json!({"kind": "inject", "case": {"state": c.state, "injections": [inj]}});
+        let one = json!({"kind": "inject", "case": {"state": c.state, "injections": [inj], "stale": c.stale}});
         if let Some((_, p, ctxt)) = lab.sim.panics.first() {
             out.push(Viol::new(
                 format!("node-{}", p.sig()),
@@ -251,7 +265,7 @@ fn grid_case(state: RState, src: Src, maxlen: usize) -> Case {
             }
         }
     }
-    Case { state, injections }
+    Case { state, injections, stale: 0 }
 }
 
 /// truncations and length-field corruptions of every genuine kind, from wrong parties
@@ -271,7 +285,7 @@ fn corruption_case(state: RState, src: Src, dense: bool) -> Case {
             }
         }
     }
-    Case { state, injections }
+    Case { state, injections, stale: 0 }
 }
 
 fn inj_strategy() -> impl Strategy<Value = Inj> {
@@ -302,7 +316,7 @@ pub fn run(ctx: &Ctx) {
          = (state, source, bytes).",
     );
     ctx.assume("verbatim genuine datagrams are skipped here (replays belong to C03/C09); established-plain: only crash-freedom");
-    ctx.assume("T's receive buffer is overwritten before each injection so that a prefix of a genuine message is not completed by stale bytes");
+    ctx.assume("T's receive buffer is overwritten before each injection (with one of four outsider-chosen patterns) so that a prefix of a genuine message is not completed by stale bytes of that genuine message");
 
     // (1) grid per state and source
     let maxlen: usize = 80;
@@ -314,6 +328,14 @@ pub fn run(ctx: &Ctx) {
         if st == RState::Unknown {
             batches.push(grid_case(st, Src::PeerP, ctx.tier.pick(24, 80)));
         }
+        // short datagrams are the ones whose processing can run into the stale bytes behind them: other stale patterns
+        for stale in 1..4u8 {
+            for src in [Src::Natural, Src::OtherPeer, Src::Stranger] {
+                let mut g = grid_case(st, src, ctx.tier.pick(12, 40));
+                g.stale = stale;
+                batches.push(g);
+            }
+        }
     }
     let mut n = 0u64;
     for b in &batches {
@@ -323,21 +345,23 @@ pub fn run(ctx: &Ctx) {
     let mut split: Vec<Case> = vec![];
     for b in batches {
         for chunk in b.injections.chunks(400) {
-            split.push(Case { state: b.state, injections: chunk.to_vec() });
+            split.push(Case { state: b.state, injections: chunk.to_vec(), stale: b.stale });
         }
     }
     ctx.par_items(&split, |_, c| {
         let v = run_case(ctx, c);
         ctx.report(v);
     });
-    ctx.subspace("grid: 7 states x sources x lengths 0..=80 x 12 first bytes x 4 body classes", n, true);
+    ctx.subspace("grid: 7 states x sources x lengths 0..=80 x 12 first bytes x 4 body classes (+ lengths 0..=12 in front of 3 other kinds of stale buffer bytes)", n, true);
     ctx.sample("grid", || json!({"state": "EstNoLinger", "source": "address of established peer P", "datagram": "05 + 11 random bytes"}));
 
     // (2) truncations / corruptions of genuine datagrams from wrong parties
     let mut batches: Vec<Case> = vec![];
     for st in ALL_STATES {
-        for src in [Src::Stranger, Src::OtherPeer, Src::Natural] {
-            batches.push(corruption_case(st, src, !ctx.quick()));
+        for (k, src) in [Src::Stranger, Src::OtherPeer, Src::Natural].into_iter().enumerate() {
+            let mut c = corruption_case(st, src, !ctx.quick());
+            c.stale = k as u8; // truncated genuine datagrams in front of three different kinds of stale bytes
+            batches.push(c);
         }
     }
     let mut n2 = 0u64;
@@ -345,7 +369,7 @@ pub fn run(ctx: &Ctx) {
     for b in batches {
         n2 += b.injections.len() as u64;
         for chunk in b.injections.chunks(400) {
-            split.push(Case { state: b.state, injections: chunk.to_vec() });
+            split.push(Case { state: b.state, injections: chunk.to_vec(), stale: b.stale });
         }
     }
     ctx.par_items(&split, |_, c| {
@@ -369,7 +393,7 @@ pub fn run(ctx: &Ctx) {
                             injections.push(Inj::Derived { src: src.clone(), kind: (kind + 1) % 9, len: 100_000, pos: usize::MAX, val: 0 });
                         }
                     }
-                    batches.push(Case { state: st, injections });
+                    batches.push(Case { state: st, injections, stale: (kind as u8 + reps as u8) % 4 });
                 }
             }
         }
@@ -416,7 +440,7 @@ pub fn run(ctx: &Ctx) {
             *b = if i == 0 { 0 } else if i == 1 { 64 } else { 0x5a };
         }
         drop(lab);
-        let v = run_case(ctx, &Case { state: *st, injections: vec![Inj::Datagram(Src::Natural, hex(&d)), Inj::Datagram(Src::Stranger, hex(&d))] });
+        let v = run_case(ctx, &Case { state: *st, injections: vec![Inj::Datagram(Src::Natural, hex(&d)), Inj::Datagram(Src::Stranger, hex(&d))], stale: 0 });
         ctx.report(v);
     });
     ctx.subspace("buffer-filling handshake datagrams (65435 bytes, copied key selector, parser runs dry at 12 different points) x 7 states", fill.len() as u64 * 2, true);
@@ -432,15 +456,15 @@ pub fn run(ctx: &Ctx) {
             b[0] = [0xff, 0, 1, 2, 3, 0x80][k];
             injections.push(Inj::Datagram(Src::Natural, hex(&b)));
         }
-        let v = run_case(ctx, &Case { state: *st, injections });
+        let v = run_case(ctx, &Case { state: *st, injections, stale: (*len % 4) as u8 });
         ctx.report(v);
     });
     ctx.subspace("random datagrams of 300 / 1500 / 9000 / 65000 bytes x 6 first bytes x 7 states", big.len() as u64 * 6, false);
 
     // (4) proptest sequences with ticks
     let nseq: u32 = ctx.tier.pick(300, 5_000);
-    ctx.proptest("pt-seq", nseq, || (any::<u16>(), proptest::collection::vec(inj_strategy(), 1..50)), |(s, injections)| {
-        let c = Case { state: ALL_STATES[pick_idx(*s, ALL_STATES.len())], injections: injections.clone() };
+    ctx.proptest("pt-seq", nseq, || (any::<u16>(), proptest::collection::vec(inj_strategy(), 1..50), 0u8..4), |(s, injections, stale)| {
+        let c = Case { state: ALL_STATES[pick_idx(*s, ALL_STATES.len())], injections: injections.clone(), stale: *stale };
         let v = run_case(ctx, &c);
         if injections.len() < 6 {
             ctx.sample("sequence", || serde_json::to_value(&c).unwrap());
